@@ -59,14 +59,15 @@ is what the options are documented to drop plus order normalisation (keys and id
 sorted, fixups by index).  All three are compared with the implementation on every run.
 
 `MapOK1` (Proofs/C06.lean) is the domain: numeric tokens are numeric and free of blanks and
-brackets, keys are not `id` / `replace…` and differ ignoring case, fixup indexes are distinct, output fields do not contain their own separator, worldspawn is not hidden, the format
+brackets, keys are not `id` / `replace…` and differ ignoring case, fixup indexes are distinct, output fields do not contain their own separator (a comma inside the parameter of a
+comma-separated output is fine: the reader re-joins it), worldspawn is not hidden, the format
 version is 100 — and, in this **v1 statement**, faces carry no displacement (displacement data
 is in the model, the correspondence and the search, but not yet in the theorem). `IdsOK`: no id is the
 "allocate one" marker -1, group ids are distinct. -/
 
 /-- **Round trip.** Re-parsing the exported tree with `preserve_ids=True` gives
 exactly the projected map: nothing else is lost or changed. -/
-theorem C06_tree_roundtrip_partial (o : ExportOpts) (m : VMap) (h : MapOK1 m) (hid : IdsOK m) :
+theorem C06_tree_roundtrip (o : ExportOpts) (m : VMap) (h : MapOK1 m) (hid : IdsOK m) :
     parseTree true (exportTree o m) = .ok (project o m) := by
   unfold parseTree
   rw [parseRaw_export o m h]
@@ -77,11 +78,11 @@ theorem C06_tree_roundtrip_partial (o : ExportOpts) (m : VMap) (h : MapOK1 m) (h
 second time) yields the same tree as the first export: export -> parse -> export changes nothing —
 displacement arrays, multiblend and Strata data included.
 (`logicalPos ≠ []`: the constructor of the implementation never leaves it empty.) -/
-theorem C06_fixed_point_partial (o : ExportOpts) (m : VMap) (h : MapOK1 m) (hid : IdsOK m)
+theorem C06_fixed_point (o : ExportOpts) (m : VMap) (h : MapOK1 m) (hid : IdsOK m)
     (hl : ∀ e ∈ m.ents, e.logicalPos ≠ []) :
     (parseTree true (exportTree o m)).map (exportTree { o with incVersion := false })
       = .ok (exportTree o m) := by
-  rw [C06_tree_roundtrip_partial o m h hid]
+  rw [C06_tree_roundtrip o m h hid]
   simp only [Except.map]
   rw [exportTree_project o m h hl]
 
@@ -181,7 +182,7 @@ def exSolid : Solid :=
 
 def exOut : Out :=
   { output := lit "OnTrigger", instOut := some (lit "relay"), target := lit "door \"1\"", input := lit "Open",
-    instIn := none, params := lit "a b", delay := lit "0.5", times := -1, comma := true }
+    instIn := none, params := lit "a,b,,c", delay := lit "0.5", times := -1, comma := true }
 
 def exEnt : Ent :=
   { id := 5, keys := [(lit "targetname", lit "x\ny"), (lit "Classname", lit "func_door")],
@@ -249,7 +250,7 @@ theorem exMap_ids : IdsOK exMap :=
 example : (parseTree true (exportTree { minimal := true, multiblend := false, incVersion := true } exMap)).map
       (exportTree { minimal := true, multiblend := false, incVersion := false })
     = .ok (exportTree { minimal := true, multiblend := false, incVersion := true } exMap) :=
-  C06_fixed_point_partial { minimal := true, multiblend := false, incVersion := true } exMap exMap_ok exMap_ids (by decide)
+  C06_fixed_point { minimal := true, multiblend := false, incVersion := true } exMap exMap_ok exMap_ids (by decide)
 
 theorem exMapD_ok : MapOK1 exMapD :=
   { exMap_ok with
@@ -273,12 +274,12 @@ theorem exMapD_ids : IdsOK exMapD :=
 
 example : parseTree true (exportTree { minimal := false, multiblend := true, incVersion := false } exMapD)
     = .ok (project { minimal := false, multiblend := true, incVersion := false } exMapD) :=
-  C06_tree_roundtrip_partial _ _ exMapD_ok exMapD_ids
+  C06_tree_roundtrip _ _ exMapD_ok exMapD_ids
 
 example : (parseTree true (exportTree { minimal := false, multiblend := true, incVersion := false } exMapD)).map
       (exportTree { minimal := false, multiblend := true, incVersion := false })
     = .ok (exportTree { minimal := false, multiblend := true, incVersion := false } exMapD) :=
-  C06_fixed_point_partial { minimal := false, multiblend := true, incVersion := false } exMapD exMapD_ok exMapD_ids
+  C06_fixed_point { minimal := false, multiblend := true, incVersion := false } exMapD exMapD_ok exMapD_ids
     (by decide)
 
 example : IdsInjective (assignIds false { exMap with ents := [exEnt, exEnt, exEnt] }) :=
@@ -286,6 +287,6 @@ example : IdsInjective (assignIds false { exMap with ents := [exEnt, exEnt, exEn
 
 example : parseTree true (exportTree { minimal := false, multiblend := true, incVersion := true } exMap)
     = .ok (project { minimal := false, multiblend := true, incVersion := true } exMap) :=
-  C06_tree_roundtrip_partial _ _ exMap_ok exMap_ids
+  C06_tree_roundtrip _ _ exMap_ok exMap_ids
 
 end C06
